@@ -402,7 +402,9 @@ func judgeC18(r *seqRun) {
 		// (a negative index while the package setting is off counts as an out-of-range index)
 		named := c == r69.TestUnequal || c == r69.IndexOutOfRange || c == r69.NegativeOff ||
 			((k == "remove" || k == "move") && (c == r69.AbsentMember || c == r69.ParentUnreachable))
-		if !named || r.ref.AltCause != r69.None {
+		// a negative index with the package setting off must not resolve, wherever it stands in the pointer
+		// (the alternative cause only says which error class would be acceptable)
+		if !named || (r.ref.AltCause != r69.None && c != r69.NegativeOff) {
 			r.ctx.Count("legacy_unnamed_failure_skipped", 1)
 			return
 		}
